@@ -133,6 +133,10 @@ Do(o) == LET w == o[2]  s == sk[w] IN
 Next == \E o \in Ops : Do(o)
 Spec == Init /\ [][Next]_vars
 View == <<pos, sk>>
+(* ViewH: no merging of states reached by different histories - the search enumerates HISTORIES (a tree) up to MaxDepth. Used on the
+   smallest instances to bind the code's behaviour after clear() / reload to the model for every preceding history: the code may
+   keep state the model does not have (an eviction floor, a cached table) and only the history shows it. *)
+ViewH == <<pos, sk, hist>>
 Bound == Len(hist) <= MaxDepth /\ \A w \in {"A", "B"} : \A k \in Keys : sk[w].tru[k] <= MaxTrue /\ sk[w].tru[k] >= 0 - MaxTrue
 
 -----------------------------------------------------------------------------
